@@ -3,10 +3,10 @@
 set -e
 P=$1; S=$2; shift 2
 mkdir -p /verif/seeded/$S
-cp /tmp/seedd-$P/SEED/patch.diff /tmp/seedd-$P/SEED/demo.rs /tmp/seedd-$P/SEED/meta.json /verif/seeded/$S/
-[ -d /tmp/seedd-$P/SEED/pp ] && cp -r /tmp/seedd-$P/SEED/pp /verif/seeded/$S/ || true
-git -C /repo worktree remove --force /tmp/seedd-$P || true
-rm -rf /tmp/seedd-$P
+cp ${WTP:-/tmp/seedd-}$P/SEED/patch.diff ${WTP:-/tmp/seedd-}$P/SEED/demo.rs ${WTP:-/tmp/seedd-}$P/SEED/meta.json /verif/seeded/$S/
+[ -d ${WTP:-/tmp/seedd-}$P/SEED/pp ] && cp -r ${WTP:-/tmp/seedd-}$P/SEED/pp /verif/seeded/$S/ || true
+git -C /repo worktree remove --force ${WTP:-/tmp/seedd-}$P || true
+rm -rf ${WTP:-/tmp/seedd-}$P
 DP=$(python3 -c "import json;print(json.load(open('/verif/seeded/$S/meta.json'))['demo_path'])")
 cd /verif && python3 tools/seedtest.py $S $DP "$@" > /tmp/seedtest-$S.log 2>&1 || true
 python3 -c "
